@@ -1184,11 +1184,36 @@ fn small_rat(a: &mut Args) -> num::BigRational {
     let d = 1 + a.below(3) as i64;
     num::BigRational::new(n.into(), d.into())
 }
-fn rand_ident_u64(a: &mut Args) -> Identifier<u64> {
-    // Identifier's field is private: build through serde
+fn rand_path_u64(a: &mut Args) -> Vec<(num::BigRational, u64)> {
     let n = a.below(4);
-    let path: Vec<(num::BigRational, u64)> = (0..n).map(|_| (small_rat(a), a.below(3))).collect();
-    serde_json::from_value(serde_json::to_value(&path).unwrap()).unwrap()
+    (0..n).map(|_| (small_rat(a), a.below(3))).collect()
+}
+fn ident_of_path(path: &[(num::BigRational, u64)]) -> Identifier<u64> {
+    // Identifier's field is private: build through serde
+    serde_json::from_value(serde_json::to_value(path).unwrap()).unwrap()
+}
+fn rand_ident_u64(a: &mut Args) -> Identifier<u64> {
+    ident_of_path(&rand_path_u64(a))
+}
+/// an identifier related to `path`: equal, an equal-rational sibling (only the last marker
+/// differs), a descendant (prefix-related), a cousin below an equal-rational sibling, or unrelated
+fn related_ident_u64(path: &[(num::BigRational, u64)], a: &mut Args) -> Identifier<u64> {
+    let mut p = path.to_vec();
+    match a.below(8) {
+        0 => {}
+        1 | 2 if !p.is_empty() => {
+            let k = p.len() - 1;
+            p[k].1 = (p[k].1 + 1 + a.below(2)) % 3;
+        }
+        3 => p.push((small_rat(a), a.below(3))),
+        4 if !p.is_empty() => {
+            let k = p.len() - 1;
+            p[k].1 = (p[k].1 + 1 + a.below(2)) % 3;
+            p.push((small_rat(a), a.below(3)));
+        }
+        _ => p = rand_path_u64(a),
+    }
+    ident_of_path(&p)
 }
 fn rand_ident_od(a: &mut Args) -> Identifier<OrdDot<A>> {
     let n = a.below(4);
@@ -1200,9 +1225,10 @@ fn rand_ident_od(a: &mut Args) -> Identifier<OrdDot<A>> {
 
 /// pure probes of Identifier::cmp / between on adversarial identifiers
 pub fn ident_probes(a: &mut Args, t: &mut Out) {
-    let x = rand_ident_u64(a);
-    let y = if a.below(4) == 0 { x.clone() } else { rand_ident_u64(a) };
-    let z = rand_ident_u64(a);
+    let px = rand_path_u64(a);
+    let x = ident_of_path(&px);
+    let y = related_ident_u64(&px, a);
+    let z = related_ident_u64(&px, a);
     let m = a.below(3);
     t.call("ident.cmp", &[sx(&x), sx(&y), ord_sx(Some(x.cmp(&y)))]);
     t.call("ident.cmp", &[sx(&y), sx(&z), ord_sx(Some(y.cmp(&z)))]);
